@@ -120,6 +120,15 @@ func Wrap(err error, loc string) error {
 	}
 	var e *MalformedFileError
 	if errors.As(err, &e) {
+		if err == error(e) {
+			// Return a copy instead of extending the location list in place:
+			// the error may be a value shared between callers.
+			res := *e
+			res.Loc = make([]string, len(e.Loc), len(e.Loc)+1)
+			copy(res.Loc, e.Loc)
+			res.Loc = append(res.Loc, loc)
+			return &res
+		}
 		e.Loc = append(e.Loc, loc)
 		return err
 	}
